@@ -134,7 +134,8 @@ def sig_universe(op):
 LITS = {"int": 2, "float": 1.5, "string": "a", "bool": True, "date": datetime.date(2020, 1, 2), "datetime": datetime.datetime(2020, 1, 2, 3, 4, 5)}
 
 
-def mk_args(t, sig):
+def mk_args(t, sig, variant=0):
+    """variant 1 takes the second sample column of each type first (other values: e.g. an Int column that exceeds the Float one in every row)"""
     args, used = [], {}
     for p in sig:
         fam = TU.family(p)
@@ -151,7 +152,7 @@ def mk_args(t, sig):
                 return None
             k = used.get(names[0], 0)
             used[names[0]] = k + 1
-            args.append(t[names[min(k, 1)]])
+            args.append(t[names[min(k, 1) if variant == 0 else 1 - min(k, 1)]])
     return args
 
 
@@ -307,29 +308,30 @@ def d3_sqlite_run(carve):
             for sig in sig_universe(op):
                 if any(type(T.without_const(p)).__name__ not in ("Int64", "Float64", "String", "Bool", "NullType") for p in sig) or len(sig) > 2:
                     continue
-                args = mk_args(t, sig)
-                if args is None:
-                    continue
-                try:
-                    kw = {"arrange": [t.g]} if op.ftype == H.Ftype.WINDOW else {}
-                    e = H.ColFn(op, *args, **kw)
-                    tbl = (t >> pdt.group_by(t.g) >> pdt.summarize(r=e)) if op.ftype == H.Ftype.AGGREGATE else (t >> pdt.mutate(r=e))
-                    static = T.without_const(tbl.r.dtype())
-                    n += 1
-                    out = tbl >> pdt.export(pdt.Polars())
-                except (pdt.errors.NotSupportedError, pdt.errors.SubqueryError):
-                    continue
-                except Exception as ex:  # noqa: BLE001
-                    skipped += 1
-                    continue
-                got = Dtype.from_polars(out["r"].dtype)
-                if isinstance(got, NullT):
-                    continue
-                fam_s, fam_g = TU.family(static), TU.family(got)
-                if "sqlite_dynamic_typing" in carve and {fam_s, fam_g} == {"int", "float"}:
-                    continue
-                if fam_s != fam_g and not (fam_s == "bool" and fam_g == "int"):
-                    bad.append(f"sqlite: {opname}{_fmt(sig)}: static family {fam_s} ({static}), exported {got}")
+                for variant in (0, 1):
+                    args = mk_args(t, sig, variant)
+                    if args is None or (variant == 1 and len(sig) < 2):
+                        continue
+                    try:
+                        kw = {"arrange": [t.g]} if op.ftype == H.Ftype.WINDOW else {}
+                        e = H.ColFn(op, *args, **kw)
+                        tbl = (t >> pdt.group_by(t.g) >> pdt.summarize(r=e)) if op.ftype == H.Ftype.AGGREGATE else (t >> pdt.mutate(r=e))
+                        static = T.without_const(tbl.r.dtype())
+                        n += 1
+                        out = tbl >> pdt.export(pdt.Polars())
+                    except (pdt.errors.NotSupportedError, pdt.errors.SubqueryError):
+                        continue
+                    except Exception as ex:  # noqa: BLE001
+                        skipped += 1
+                        continue
+                    got = Dtype.from_polars(out["r"].dtype)
+                    if isinstance(got, NullT):
+                        continue
+                    fam_s, fam_g = TU.family(static), TU.family(got)
+                    if "sqlite_dynamic_typing" in carve and {fam_s, fam_g} == {"int", "float"} and opname in ("round", "floor", "ceil", "coalesce", "fill_null"):
+                        continue
+                    if fam_s != fam_g and not (fam_s == "bool" and fam_g == "int"):
+                        bad.append(f"sqlite: {opname}{_fmt(sig)} (sample columns variant {variant}): static family {fam_s} ({static}), exported {got}")
     o = _enum_outcome("SQLite: the exported column has the numeric family of the static type (Bool may come back as 0/1 integer)", n, bad)
     o.notes.append(f"{skipped} instances skipped (engine errors on the sample data)")
     return o
